@@ -348,6 +348,23 @@ fn variants(idx: u64, rng: &mut Rng, mon: &mut Mon) {
 
 fn mutants(idx: u64, rng: &mut Rng, mon: &mut Mon) {
     let base = if rng.bool(0.5) { write_variant(rng).text } else { to_params(&gen_robot(rng, idx, RobotMode::All, 0.3).rp).to_yaml() };
+    // (hand-edited files carry comments such as "# J3 -90°, J6 180°": non-ASCII text before whatever breaks later)
+    let base = if rng.bool(0.4) {
+        let mut lines: Vec<String> = base.lines().map(|l| l.to_string()).collect();
+        for _ in 0..(1 + rng.usize(3)) {
+            let k = rng.usize(lines.len().max(1));
+            let c = *rng.pick(&[" # J3 -90°, J6 180°", " # Länge in Metern", " # ±0.5° калибровка", " # 𝜋/2"]);
+            if rng.bool(0.5) && k < lines.len() {
+                lines[k].push_str(c);
+            } else {
+                lines.insert(k.min(lines.len()), c.trim_start().to_string());
+            }
+        }
+        mon.count("mutants.files_with_non_ascii_comments");
+        lines.join("\n") + "\n"
+    } else {
+        base
+    };
     let mut bytes = base.clone().into_bytes();
     let mkind = rng.usize(11);
     let mname = ["truncate", "delete_line", "duplicate_line", "type_swap", "random_bytes", "empty", "non_utf8", "only_comments", "multi_doc", "structure_swap", "array_length"][mkind];
